@@ -13,6 +13,8 @@ import ExecModel.Lts.Cache
 import ExecModel.Lts.FileExec
 import ExecModel.Config
 import ExecModel.Proofs.SysLiveDefs
+import ExecModel.Lts.Pub
+import ExecModel.Props.C05Conn
 /-!
   `modeld` — line protocol driver: one JSON object per line in, one JSON value per line out.
   Every request carries `"op"`.  Anything not understood yields `{"error": "bad-op"}`; nothing is
@@ -636,9 +638,55 @@ def configOps (op : String) (j : Json) : Except String (Option Json) := do
           ("kind", Json.str (reprStr p.kind)), ("plot", Json.bool (p.resolver && p.plot))]))
   | _ => pure none
 
+/-! ### Pub: file-system calls on cache entries -/
+
+def parsePubPath (j : Json) : Except String Pub.Path := do
+  pure { fs := ← getNat j "fs", dir := ← getNat j "dir", name := ← getStr j "name", final := ← getBool j "final" }
+
+def pubOps (op : String) (j : Json) : Except String (Option Json) := do
+  match op with
+  | "pub_replay" =>
+    let ops ← (← j.getObjValAs? (Array Json) "ops").toList.mapM (fun o => do
+      let k ← getStr o "op"
+      match k with
+      | "crash" => pure Pub.Op.crash
+      | "rename" => pure (Pub.Op.rename (← parsePubPath (← o.getObjVal? "p")) (← parsePubPath (← o.getObjVal? "q")))
+      | _ =>
+        let p ← parsePubPath (← o.getObjVal? "p")
+        match k with
+        | "create" => pure (Pub.Op.create p) | "reopen" => pure (Pub.Op.reopen p)
+        | "write" => pure (Pub.Op.write p (← getNat o "n")) | "close" => pure (Pub.Op.close p)
+        | "unlink" => pure (Pub.Op.unlink p)
+        | _ => throw s!"pub op {k}")
+    let invB (s : Pub.State) : Bool := s.all (fun f => !f.path.final || f.writers == 0)
+    -- the executable counterpart of theorem inv_every_prefix: the invariant in the state after every prefix
+    let rec prefixes (s : Pub.State) (l : List Pub.Op) (i : Nat) : Option Nat :=
+      match l with
+      | [] => if invB s then none else some i
+      | o :: r => if invB s then prefixes (Pub.step s o) r (i + 1) else some i
+    let fin := Pub.run [] ops
+    pure (some (Json.mkObj [
+      ("accepted", Json.bool (Pub.runD [] ops).isSome),
+      ("first_bad", match Pub.firstBad [] ops 0 with | some i => toJson i | none => Json.null),
+      ("invariant_fails_after", match prefixes [] ops 0 with | some i => toJson i | none => Json.null),
+      ("finals", Json.arr ((Pub.finals fin).map (fun (p, b) => Json.mkObj [("name", Json.str p.name), ("bytes", toJson b)])).toArray)]))
+  | _ => pure none
+
+/-! ### Conn: shutdown of one worker connection with process faults -/
+
+def connOps (op : String) (j : Json) : Except String (Option Json) := do
+  match op with
+  | "conn_outcomes" =>
+    let p ← (match (← getStr j "proc") with
+      | "running" => pure Conn.Proc.running | "dying" => pure Conn.Proc.dying
+      | "reapable" => pure Conn.Proc.reapable | "reaped" => pure Conn.Proc.reaped
+      | x => throw s!"proc {x}")
+    pure (some (toJson (C05Conn.outcomes p (← getBool j "faults"))))
+  | _ => pure none
+
 end H
 
-def handlers : List (String → Json → Except String (Option Json)) := [H.cmdOps, H.presetOps, H.wireOps, H.sysOps, H.argsOps, H.resOps, H.keyOps, H.plotOps, H.fileOps, H.configOps]
+def handlers : List (String → Json → Except String (Option Json)) := [H.cmdOps, H.presetOps, H.wireOps, H.sysOps, H.argsOps, H.resOps, H.keyOps, H.plotOps, H.fileOps, H.configOps, H.pubOps, H.connOps]
 
 def handle (line : String) : Json :=
   match Json.parse line with
